@@ -37,13 +37,15 @@ Out(e) ==
 
 SimInit == Init /\ rng \in 1..4096 /\ hist = << [op |-> "init", batch |-> BatchSize, maxb |-> MaxBlocks, mtb |-> MTB,
                               replicas |-> SetToSeq(Replica),
-                              disk |-> SetToSeq(DiskBackend), gc |-> SetToSeq(GCReplica)] >>
+                              diskr |-> SetToSeq(DiskBackend), gcr |-> SetToSeq(GCReplica)] >>
 
-\* adding is offered three times: flushes and restarts stay frequent but do not dominate
+\* adding is offered three times: flushes and restarts stay frequent but do not dominate; the GC replica
+\* gets an extra flush so that collections happen
 SimStep == \/ \E r \in Replica : SimAdd(r) /\ hist' = Append(hist, Rec("add", r))
            \/ \E r \in Replica : SimAdd(r) /\ hist' = Append(hist, Rec("add", r))
            \/ \E r \in Replica : SimAdd(r) /\ hist' = Append(hist, Rec("add", r))
            \/ \E r \in Replica : Flush(r) /\ hist' = Append(hist, Rec("flush", r))
+           \/ \E r \in GCReplica : Flush(r) /\ hist' = Append(hist, Rec("flush", r))
            \/ \E r \in Replica : (cacheLog[r] # <<>> \/ fl[r] < h[r] \/ gcT[r] # {}) /\ Restart(r)
                                  /\ hist' = Append(hist, Rec("restart", r))
 SimNext == SimStep /\ rng' = (rng * 75) % 65537
